@@ -98,6 +98,9 @@ func (p Params) Validate() error {
 	if err := validateUint64("inactive penalty duration", false)(p.InactivePenaltyDuration); err != nil {
 		return err
 	}
+	if p.InactivePenaltyDuration > math.MaxInt64 {
+		return fmt.Errorf("inactive penalty duration must not exceed %d: %d", int64(math.MaxInt64), p.InactivePenaltyDuration)
+	}
 	if err := validateBool()(p.IBCRequestEnabled); err != nil {
 		return err
 	}
